@@ -10,7 +10,7 @@
 //!      variables (8-p 0 p 0); reward variables (8 0 8 u) and arbitrary non-negative weights only
 //!      on variables ordered after every decision variable.
 //!   All values are dyadic with small numerators, so every f64 operation of the code is exact.
-//! out:   mm=<value>:<model> bbr=<value>:<model> meu=<prob>,<utility>:<model> bbe=<prob>,<utility>:<model>
+//! out:   mm=<value> bbr=<value> meu=<prob>,<utility> bbe=<prob>,<utility>   (returned models: oracle only)
 //!   values as reduced fractions decoded from the f64 bit pattern, models as one character per
 //!   variable (1, 0, - = unset).
 //! oracle (independent: truth table + exact integer / dyadic arithmetic): for each of the four
@@ -327,12 +327,16 @@ pub fn run(case: &str, st: &mut Stats) -> Outcome {
     let (bbr_v, bbr_m) = p.bb(&qv, nv, &real);
     let (meu_v, meu_m) = p.meu(&qv, nv, &eu);
     let (bbe_v, bbe_m) = p.bb(&qv, nv, &eu);
+    // compared with the model: the optimal VALUES.  Which of several optimal assignments is
+    // returned is not fixed by the property (any assignment attaining the maximum will do): the
+    // returned assignments are judged by the oracle below, not by the correspondence
+    let _ = pm_str;
     let line = format!(
-        "mm={}:{} bbr={}:{} meu={},{}:{} bbe={},{}:{}",
-        D::of_f64(mm_v).show(), pm_str(&mm_m, total),
-        D::of_f64(bbr_v.0).show(), pm_str(&bbr_m, total),
-        D::of_f64(meu_v.0).show(), D::of_f64(meu_v.1).show(), pm_str(&meu_m, total),
-        D::of_f64(bbe_v.0).show(), D::of_f64(bbe_v.1).show(), pm_str(&bbe_m, total)
+        "mm={} bbr={} meu={},{} bbe={},{}",
+        D::of_f64(mm_v).show(),
+        D::of_f64(bbr_v.0).show(),
+        D::of_f64(meu_v.0).show(), D::of_f64(meu_v.1).show(),
+        D::of_f64(bbe_v.0).show(), D::of_f64(bbe_v.1).show()
     );
 
     // ---- oracle: exhaustive maximisation over the assignments of the query variables
